@@ -18,7 +18,7 @@ import struct
 from harness import core, canon, clsops, clsrun, gen_opp, canon_opp
 from harness.core import hx, unhx
 
-LEAN_MODULES = ['CpProps.C09']
+LEAN_MODULES = ['CpProps.C09', 'CpProps.C09Ldap']
 RULE = ('per modelled class (16): seeded objects from the library constructors (all capability/status flag subsets by '
         'random masks plus empty/full/singletons, both protocol versions, all 41 character sets, the three kinds of MySQL '
         'greeting - CLIENT_PLUGIN_AUTH with a second part of 13..247 bytes, CLIENT_SECURE_CONNECTION alone (pre-5.5.7) '
@@ -473,6 +473,79 @@ class LdapOracle(object):
         return bad
 
 
+def ber_long(tag, content, n_len_octets):
+    """the same TLV with the long form of the length on `n_len_octets` octets (X.690 8.1.3.5; padded with leading zeros
+    when that is more than the value needs - BER allows it, Active Directory writes 30 84 00 00 00 nn)"""
+    return bytes([tag, 0x80 | n_len_octets]) + len(content).to_bytes(n_len_octets, 'big') + content
+
+
+def ldap_message(rc, diagnostic=b'', len_octets=None):
+    """a conformant LDAPMessage (StartTLS request when rc is None, else the extended response) whose OUTER length is in
+    the short/minimal form (len_octets None) or in the long form on that many octets"""
+    if rc is None:
+        content = ber(0x02, ber_int(1)) + ber(0x77, ber(0x80, LDAP_STARTTLS_OID))
+    else:
+        content = ber(0x02, ber_int(1)) + ber(0x78, ber(0x0a, ber_int(rc)) + ber(0x04, b'') + ber(0x04, diagnostic))
+    if len_octets is None:
+        return ber(0x30, content)
+    return ber_long(0x30, content, len_octets)
+
+
+class LdapSizeOracle(object):
+    """case {'kind':'ldapsize','data':hex}: `_get_message_size` on arbitrary octets (model: CpModel/Opp/Ldap.lean);
+    case {'kind':'ldapsize','rc':..,'diag':n,'lo':k,'tail':hex}: a conformant message in the given length form, followed by
+    `tail`: parsed by the implementation, which must return the encoded values, the type on the wire and n = its length"""
+
+    @staticmethod
+    def _data(case):
+        if 'data' in case:
+            return unhx(case['data'])
+        return ldap_message(case['rc'], b'd' * case['diag'], case['lo']) + unhx(case['tail'])
+
+    @classmethod
+    def lines(cls, case):
+        return ['R LdapMessageSize {}'.format(hx(cls._data(case)))]
+
+    @classmethod
+    def impl(cls, case):
+        from cryptoparser.tls.ldap import LDAPMessageParsableBase
+        data = cls._data(case)
+        try:
+            n = LDAPMessageParsableBase._get_message_size(data)  # pylint: disable=protected-access
+        except Exception as exc:  # pylint: disable=broad-except
+            return [core.err_line(exc)]
+        return ['OK {} LdapMessageSize() -'.format(n)]
+
+    @classmethod
+    def prop(cls, case):
+        from cryptoparser.tls.ldap import LDAPExtendedRequestStartTLS, LDAPExtendedResponseStartTLS, LDAPResultCode
+        if 'data' in case:
+            return []
+        bad = []
+        tail = unhx(case['tail'])
+        msg = ldap_message(case['rc'], b'd' * case['diag'], case['lo'])
+        klass = LDAPExtendedRequestStartTLS if case['rc'] is None else LDAPExtendedResponseStartTLS
+        what = '{} with the outer length on {} octets, diagnosticMessage of {} octets'.format(
+            klass.__name__, 'the minimal number of' if case['lo'] is None else case['lo'], case['diag'])
+        calls = [('parse_immutable', lambda: klass.parse_immutable(msg + tail))]
+        if not tail:
+            calls.append(('parse_exact_size', lambda: (klass.parse_exact_size(msg), len(msg))))
+        for name, call in calls:
+            got = _t(call)
+            if isinstance(got, Exception):
+                bad.append(('ldap-rejects-conformant:' + core.err_line(got).replace(' ', '_'),
+                            '{}: {}({} + {} following octets) raised {}'.format(what, name, hx(msg[:8]) + '...', len(tail),
+                                                                               core.err_line(got))))
+                continue
+            parsed, n = got
+            if type(parsed) is not klass or (case['rc'] is not None and parsed.result_code != LDAPResultCode(case['rc'])):
+                bad.append(('ldap-values', '{}: {} gives {!r}'.format(what, name, parsed)))
+            if n != len(msg):
+                bad.append(('ldap-consumed', '{}: {} consumed {} octets of a message of {} ({} octets follow it)'.format(
+                    what, name, n, len(msg), len(tail))))
+        return bad[:1]
+
+
 def _t(fn):
     try:
         return fn()
@@ -628,7 +701,7 @@ class ProbeOracle(object):
         return bad[:1]
 
 
-ORACLES = {'cls': clsrun.ClsOracle, 'obj': ObjOracle, 'consts': ConstOracle, 'ldap': LdapOracle, 'probe': ProbeOracle}
+ORACLES = {'cls': clsrun.ClsOracle, 'obj': ObjOracle, 'consts': ConstOracle, 'ldap': LdapOracle, 'ldapsize': LdapSizeOracle, 'probe': ProbeOracle}
 PROBES = ['rdp-zero-flag', 'strnul-embedded-nul', 'mysql-v10-part2']
 
 
@@ -686,6 +759,34 @@ def gen_cases(rng, tier):
     cases.append({'kind': 'ldap', 'rc': None})
     for rc in LDAPResultCode:
         cases.append({'kind': 'ldap', 'rc': int(rc)})
+    # the BER header of the outer SEQUENCE in every length form: arbitrary headers for the size function alone, and
+    # conformant messages (long diagnosticMessage, padded long forms) for the parsers
+    n_size = 150 if tier == 'quick' else 1500
+    for _ in range(n_size):
+        form = rng.randrange(4)
+        if form == 0:
+            head = bytes([0x30, rng.randrange(0x80)])
+        elif form == 1:
+            k = rng.choice([1, 1, 2, 2, 3, 4, 4, 5, 8, rng.randrange(0, 128)])
+            lead = rng.randrange(0, k + 1)
+            head = bytes([rng.choice([0x30, 0x30, rng.randrange(256)]), 0x80 | k]) + bytes(lead) + \
+                bytes(rng.getrandbits(8) for _ in range(k - lead))
+        elif form == 2:       # fewer length octets in the buffer than the header announces
+            k = rng.randrange(1, 128)
+            head = bytes([0x30, 0x80 | k]) + bytes(rng.getrandbits(8) for _ in range(rng.randrange(0, k)))
+        else:
+            head = bytes(rng.getrandbits(8) for _ in range(rng.randrange(2, 8)))
+        cases.append({'kind': 'ldapsize', 'data': hx(head + bytes(rng.getrandbits(8) for _ in range(rng.randrange(0, 4))))})
+    codes = [None] + [int(rc) for rc in LDAPResultCode]
+    for lo in (None, 1, 2, 3, 4, 5, 8):
+        for diag in (0, 1, 90, 127, 128, 200, 255, 256, 300, 70000):
+            if lo is not None and diag + 64 >= 256 ** lo:
+                continue
+            if diag == 70000 and tier == 'quick' and lo not in (None, 3):
+                continue
+            for tail in ('-', '16030100'):
+                rc = rng.choice(codes) if diag == 0 else rng.choice(codes[1:])
+                cases.append({'kind': 'ldapsize', 'rc': rc, 'diag': diag, 'lo': lo, 'tail': tail})
     for p in PROBES:
         cases.append({'kind': 'probe', 'name': p})
     return cases, cls_cases
@@ -720,7 +821,12 @@ def run(run, driver_ok=True, deep=False):  # pylint: disable=redefined-outer-nam
                      'from the documentation (length octet 21 / 8 / 0 / 255 / 1..7 / arbitrary, pre-5.5.7 with and without a filler)'
                      .format(kinds['plugin'], kinds['secure'], kinds['neither'], refused,
                              len(gen_opp.RAW_INPUTS) * 2 * (40 if tier == 'quick' else 400)))
-    run.notes.append('LDAP: implementation-side only (asn1crypto); Lean carries the two encodings as specification constants')
+    run.notes.append('LDAP: the decoding is asn1crypto (implementation-side only; Lean carries the two encodings as specification '
+                     'constants); the library\'s own framing (_get_message_size) is modelled, proved for every BER length form '
+                     '(CpProps/C09Ldap) and run against the model on {} headers; {} conformant messages in short, minimal-long and '
+                     'padded-long form parsed with and without following octets'.format(
+                         sum(1 for c in cases if c['kind'] == 'ldapsize' and 'data' in c),
+                         sum(1 for c in cases if c['kind'] == 'ldapsize' and 'data' not in c)))
 
 
 def inconsistent_header_probe(run):  # pylint: disable=redefined-outer-name
